@@ -184,8 +184,28 @@ def run(ctx):
         corpus = [l.strip() for l in open(cp) if l.strip() and not l.startswith("#")]
     cases = corpus + gen_cases(ctx, n)
     judge(ctx, cases, exe, drv, broken, log)
+    clock_source(ctx, exe)
     lib_tier(ctx, drv)
     return ctx.finish(assumptions=ASSUMPTIONS)
+
+
+def clock_source(ctx, exe):
+    """the clock the deadline logic polls (hr_gettime, real path, no virtual clock) against the system real-time
+    clock: a reading never lies before a clock_gettime(CLOCK_REALTIME) reading made just before it"""
+    n = 20000 if not ctx.thorough else 200000
+    rc, out = vlib.sh([exe], input="clocksrc %d\n" % n, env=dict(os.environ, MYTH_NUM_WORKERS="1"), timeout=120)
+    m = re.search(r"clocksrc early=(\d+) late=(\d+) worst_ns=(\d+) subus=(\d+)", out)
+    ctx.cov["correspondence"]["clock_source"] = {"samples": n, "result": m.group(0) if m else out[-200:]}
+    ctx.cov["trusted_base"] += ["clock source: hr_gettime's real path is compared with clock_gettime(CLOCK_REALTIME) on %d samples per run "
+                                "(never earlier than a reading made just before it); the kernel clock itself is trusted" % n]
+    if not m:
+        ctx.violation("clock-source", "clock source probe gave no result: " + out[-300:],
+                      {"theorem_or_correspondence": "clock source probe (harness/c20_unit.c clocksrc)"}, found=False)
+    elif int(m.group(1)) > 1:        # one isolated sample is tolerated: the system clock may be stepped during the probe
+        ctx.violation("clock-source", "the library's clock (hr_gettime) read up to %s ns BEFORE the real-time clock in %s of %d samples (%s after): "
+                      "a sleep / timed wait that polls it returns before the requested time has passed on the real clock"
+                      % (m.group(3), m.group(1), n, m.group(2)),
+                      {"case": "clocksrc %d" % n, "observed": m.group(0), "expected": "early=0 late=0", "level": "unit"}, found=True)
 
 
 def judge(ctx, cases, exe, drv, broken, log):
